@@ -214,13 +214,15 @@ class Dm1:
 
     def _send(self, cookie):
         # get dm1 data
-        self._lamp_status, self._dtc_dic_list = cookie['cb']()
+        # (the message is built in local variables: the receive thread writes a received DM1 into the attributes
+        #  of this object and must not get in between)
+        lamp_status, dtc_dic_list = cookie['cb']()
 
         # create payload - lamp status
-        self._data = DtcLamp().get_data(self._lamp_status)
+        data = DtcLamp().get_data(lamp_status)
 
         # create payload - dtc
-        for dtc_dic in self._dtc_dic_list:
+        for dtc_dic in dtc_dic_list:
             # not optional arguments
             if dtc_dic.get('spn') == None:
                 continue
@@ -231,19 +233,21 @@ class Dm1:
                 dtc_dic['oc'] = 0
 
             dtc = DTC(spn=dtc_dic['spn'], fmi=dtc_dic['fmi'], oc=dtc_dic['oc']).dtc
-            self._data.append(dtc & 0xFF)
-            self._data.append((dtc >> 8) & 0xFF)
-            self._data.append((dtc >> 16) & 0xFF)
-            self._data.append((dtc >> 24) & 0xFF)
+            data.append(dtc & 0xFF)
+            data.append((dtc >> 8) & 0xFF)
+            data.append((dtc >> 16) & 0xFF)
+            data.append((dtc >> 24) & 0xFF)
+
+        self._lamp_status, self._dtc_dic_list, self._data = lamp_status, dtc_dic_list, data
 
         # Default Priority: 6
         # priority should be 7 when transport protocol is used (SAE J1939-21 requirement)
-        if len(self._data) > 8:
+        if len(data) > 8:
             priority = 7
         else:
             priority = 6
         # send pgn
-        self._ca.send_pgn(0, (self._pgn >> 8) & 0xFF, self._pgn & 0xFF, priority, self._data )
+        self._ca.send_pgn(0, (self._pgn >> 8) & 0xFF, self._pgn & 0xFF, priority, data )
 
         # returning true keeps the timer event active
         return True
